@@ -4,6 +4,7 @@ import z3
 from .engine import (Adt, Opaque, StrS, all_lits, f_uuid_ok, f_uuid_hyph, f_dec_ok, f_dec_n, f_dec_d, f_addr_ok, f_marker_found, f_marker_dec,
                      f_marker_type, f_attr_ok, f_sv_ok, f_sv_maj, f_sv_min, f_sv_pat, f_sv_pre, f_numstr)
 from .models import f_decstr, snake
+from .engine import f_dec_canon
 
 
 def dec_text(n, d):
@@ -94,6 +95,15 @@ class Concretiser:
         if self.bool(f_uuid_ok(t)) and role in ('uuid', 'other', 'name'):
             hv = self.val(f_uuid_hyph(t))
             canonical = hv == self.val(t)
+            if hv in self.text and re.match(r'^[0-9a-f]{8}-[0-9a-f]{4}-[0-9a-f]{4}-[0-9a-f]{4}-[0-9a-f]{12}$', self.text[hv]):
+                # the canonical text is a literal (e.g. the nil UUID): spell this string as that value
+                lit_txt = self.text[hv]
+                if canonical:
+                    return lit_txt
+                for cand in (lit_txt.replace('-', ''), lit_txt.upper(), '{' + lit_txt + '}', 'urn:uuid:' + lit_txt):
+                    if cand not in self.used:
+                        return cand
+                raise ValueError('out of uuid spellings')
             if hv not in self.uuid_num:
                 lead = getattr(self, 'order_index', None)
                 self.uuid_num[hv] = ((lead if lead else 0xa0) << 120) + len(self.uuid_num) + 1
@@ -115,12 +125,19 @@ class Concretiser:
             while d > 1 and n % 10 == 0:
                 n, d = n // 10, d // 10
             txt = dec_text(n, d)
+            canon = self.bool(f_dec_canon(t))
             # numerically equal prices written differently: trailing zeros (to_string keeps them), up to the scale bound
             while txt in self.used and len(str(d)) - 1 < full:
                 n, d = n * 10, d * 10
                 txt = dec_text(n, d)
+            if canon:
+                if txt in self.used:
+                    raise ValueError('no further canonical spelling of decimal ' + txt)
+                return txt
+            # a non-canonical spelling: parsed alike, printed without the sign / leading zeros
+            txt = txt if txt.startswith('-') else '+' + txt
             while txt in self.used:
-                txt = ('-0' + txt[1:]) if txt.startswith('-') else ('0' + txt)      # leading zeros: parsed alike, printed without
+                txt = txt[0] + '0' + txt[1:]
             return txt
         if role == 'decimal':
             return self.fresh('notanumber%d')
@@ -216,7 +233,7 @@ class Concretiser:
             if dn == 'deccanon':
                 txt = self.term_string(t.arg(0), 'price')
                 neg = txt.startswith('-')
-                body = txt.lstrip('-').lstrip('0')
+                body = txt.lstrip('+-').lstrip('0')
                 if body.startswith('.') or body == '':
                     body = '0' + body
                 return ('-' if neg else '') + body
